@@ -65,7 +65,7 @@ def _run_worker(part: Part, extra: List[str], timeout: float) -> Dict[str, Any]:
 
 def analyze(part: Part) -> Dict[str, Any]:
     r = _run_worker(part, ["--cond-timeout", str(part.cond_timeout), "--path-timeout", str(part.path_timeout)],
-                    timeout=part.cond_timeout + 120)
+                    timeout=part.cond_timeout * 3 + 180)  # (CrossHair's own limit counts CPU time; generous wall limit catches real hangs)
     r["label"] = part.label
     r["obligation"] = part.obligation
     return r
